@@ -17,6 +17,8 @@ BAD = {
     "lambda0": "(lambda: {c})", "lambda1": "(lambda z: z + {c})", "listcomp": "[z for z in ({c}, 1)]", "setcomp": "{{z for z in ({c}, 1)}}",
     "dictcomp": "{{z: 1 for z in ({c}, 1)}}", "genexp": "max((z for z in ({c}, 1)), 1)", "walrus": "(w := {c})",
     "dunder_call": "__import__({c})", "dunder_attr": "({c}).__class__", "dunder_name": "(__name__)",
+    # U+FF3F is folded to "_" when Python reads an identifier: the name below is __builtins__, though the text holds no double underscore
+    "dunder_fullwidth": "max({c}, _\uff3fbuiltins_\uff3f)", "call_keyword": "exp({c}, out=x)", "call_starred": "max(*({c}, 1))",
 }
 
 
